@@ -120,7 +120,17 @@ impl BisyncEngine {
                 let hidden = |entry: &Option<crate::sync::scanner::FileEntry>, root: &Path| {
                     entry.is_none() && std::fs::symlink_metadata(root.join(&c.path)).is_ok()
                 };
-                !(hidden(&c.source_entry, source) || hidden(&c.dest_entry, dest))
+                // A symbolic link is left alone as well: bisync copies file contents, and a link was
+                // copied THROUGH (a regular file appeared on the other side), never recorded as in
+                // sync, and turned into a growing set of conflict copies under `rename` -- the link
+                // itself was renamed away on its own side.
+                let is_link = |entry: &Option<crate::sync::scanner::FileEntry>| {
+                    entry.as_ref().is_some_and(|e| e.is_symlink)
+                };
+                !(hidden(&c.source_entry, source)
+                    || hidden(&c.dest_entry, dest)
+                    || is_link(&c.source_entry)
+                    || is_link(&c.dest_entry))
             })
             .collect();
 
